@@ -16,30 +16,30 @@ import (
 
 // Job is what the driver (bin/check) asks one worker process to do.
 type Job struct {
-	Mode     string `json:"mode"` // search | replay | shrink
-	Prop     string `json:"prop"`
-	Tier     string `json:"tier"`
-	Seed     uint64 `json:"seed"`
-	Worker   int    `json:"worker"`
-	Workers  int    `json:"workers"`
-	Cases    int    `json:"cases"`      // total cases across all workers (0 = property default)
-	MaxWallS int    `json:"max_wall_s"` // stop generating new cases after this many seconds
-	Out      string `json:"out"`
-	Replay   string `json:"replay,omitempty"`
-	MaxViol  int    `json:"max_viol,omitempty"`
+	Mode     string      `json:"mode"` // search | replay | shrink
+	Prop     string      `json:"prop"`
+	Tier     string      `json:"tier"`
+	Seed     uint64      `json:"seed"`
+	Worker   int         `json:"worker"`
+	Workers  int         `json:"workers"`
+	Cases    int         `json:"cases"`      // total cases across all workers (0 = property default)
+	MaxWallS int         `json:"max_wall_s"` // stop generating new cases after this many seconds
+	Out      string      `json:"out"`
+	Replay   string      `json:"replay,omitempty"`
+	MaxViol  int         `json:"max_viol,omitempty"`
 	Known    []KnownSpec `json:"known,omitempty"`
 }
 
 // KnownSpec identifies one recorded known finding narrowly (see known_findings.json).
 type KnownSpec struct {
-	ID        string   `json:"id"`
-	Oracle    string   `json:"oracle"`
-	Sig       *string  `json:"sig,omitempty"`
-	SigPrefix *string  `json:"sig_all_frames_prefix,omitempty"`
-	Kinds     []string `json:"policy_kinds,omitempty"` // policy kinds the scenario must use
-	BothCtx   bool     `json:"adapter_both_contexts,omitempty"` // adapter scenario with non-background request and executor contexts
-	AdapterPolicy string `json:"adapter_policy_kind,omitempty"` // adapter scenario using this policy kind
-	AdapterBodies []int  `json:"adapter_body_in,omitempty"`     // adapter scenario whose request body kind is one of these
+	ID            string   `json:"id"`
+	Oracle        string   `json:"oracle"`
+	Sig           *string  `json:"sig,omitempty"`
+	SigPrefix     *string  `json:"sig_all_frames_prefix,omitempty"`
+	Kinds         []string `json:"policy_kinds,omitempty"`          // policy kinds the scenario must use
+	BothCtx       bool     `json:"adapter_both_contexts,omitempty"` // adapter scenario with non-background request and executor contexts
+	AdapterPolicy string   `json:"adapter_policy_kind,omitempty"`   // adapter scenario using this policy kind
+	AdapterBodies []int    `json:"adapter_body_in,omitempty"`       // adapter scenario whose request body kind is one of these
 }
 
 func (k *KnownSpec) matches(v *Violation, sc *Scenario) bool {
@@ -125,13 +125,13 @@ type ReplayFile struct {
 }
 
 type CfgJSON struct {
-	Seed     uint64  `json:"seed"`
-	Strategy int     `json:"strategy"`
-	PCTDepth int     `json:"pct_depth,omitempty"`
-	PCTLen   int     `json:"pct_len,omitempty"`
-	StickyP  float64 `json:"sticky_p,omitempty"`
-	RandMode int     `json:"rand_mode,omitempty"`
-	StallP   float64 `json:"stall_p,omitempty"`
+	Seed      uint64          `json:"seed"`
+	Strategy  int             `json:"strategy"`
+	PCTDepth  int             `json:"pct_depth,omitempty"`
+	PCTLen    int             `json:"pct_len,omitempty"`
+	StickyP   float64         `json:"sticky_p,omitempty"`
+	RandMode  int             `json:"rand_mode,omitempty"`
+	StallP    float64         `json:"stall_p,omitempty"`
 	StallDurs []time.Duration `json:"stall_durs,omitempty"`
 }
 
@@ -144,24 +144,24 @@ func (c CfgJSON) cfg() simrt.Config {
 
 // WorkerOut is what a search worker reports.
 type WorkerOut struct {
-	Prop       string         `json:"prop"`
-	Cases      int            `json:"cases"`
-	Runs       int            `json:"runs"`
-	Steps      int64          `json:"steps"`
-	Choices    int64          `json:"choices"`
-	Preempt    int64          `json:"preemptions"`
-	SimTimeNs  int64          `json:"sim_time_ns"`
-	WallS      float64        `json:"wall_s"`
-	Nontrivial int            `json:"nontrivial_runs"`
-	HashFile   string         `json:"hash_file"`
-	Cov        map[string]int `json:"cov"`
-	Strategies map[string]int `json:"strategies"`
-	Sites      map[string]int `json:"sites"`
-	Samples    []any          `json:"samples"`
-	Violations []string       `json:"violations"` // replay file paths
-	Errors     []string       `json:"errors"`     // harness trouble (exit 2)
-	KnownHits  map[string]int `json:"known_hits"`
-	RaceReports int           `json:"race_reports"`
+	Prop        string         `json:"prop"`
+	Cases       int            `json:"cases"`
+	Runs        int            `json:"runs"`
+	Steps       int64          `json:"steps"`
+	Choices     int64          `json:"choices"`
+	Preempt     int64          `json:"preemptions"`
+	SimTimeNs   int64          `json:"sim_time_ns"`
+	WallS       float64        `json:"wall_s"`
+	Nontrivial  int            `json:"nontrivial_runs"`
+	HashFile    string         `json:"hash_file"`
+	Cov         map[string]int `json:"cov"`
+	Strategies  map[string]int `json:"strategies"`
+	Sites       map[string]int `json:"sites"`
+	Samples     []any          `json:"samples"`
+	Violations  []string       `json:"violations"` // replay file paths
+	Errors      []string       `json:"errors"`     // harness trouble (exit 2)
+	KnownHits   map[string]int `json:"known_hits"`
+	RaceReports int            `json:"race_reports"`
 }
 
 func propHash(id string) uint64 {
